@@ -474,7 +474,7 @@ def build(tier, seed):
         'bounds': {'mutator_depth': depth, 'max_len': L, 'alphabet': [-1, 0, 2], 'registry_array_functions': len(REG),
                    'registry_object_functions': len(OBJ), 'excluded': EXCLUDE, 'uncovered_public_callables': uncovered()},
         'required_classes': ['A:constructor', 'A:reset_values', 'A:list', 'A:i64', 'A:transition-changed-values', 'A-cluster:time_match-shifted',
-                             'B:returned', 'B:raised-both-times', 'B:list-input', 'B:int-input', 'B:history', 'B:A-B-A', 'B:A-B-A-records'],
+                             'B:returned', 'B:raised-both-times', 'B:list-input', 'B:int-input', 'B:history', 'B:A-B-A', 'B:A-B-A-records', 'B:after-every-edit'],
         'assumptions': ['purity is decided for the functions in the explicit registry; public callables in neither the registry nor the exclusion '
                         'list are reported under bounds.uncovered_public_callables',
                         'a function that raises for an input must raise again on the second call and still leave its input unchanged'],
@@ -651,6 +651,69 @@ def history_independent(r, name, fn, ctor, rec, sub):
                observed=a1[1], expected=a0[1])
 
 
+_EDIT_OPS = {}
+
+
+def edit_ops(cls):
+    if cls not in _EDIT_OPS:
+        ops, kind = c04.build_ops(cls)
+        _EDIT_OPS[cls] = [(n, f) for n, f in ops.items() if kind[n][0] == 'mut']
+    return _EDIT_OPS[cls]
+
+
+def after_every_edit(r, name, fn, ctor, rec, sub):
+    """A third kind of history: the function was called on the object, then the object's record was changed through ONE public
+    mutator (every one of the C04 alphabet in turn - incl. those that rewrite the stored array in place), then the function is
+    called again.  The object now is the same input as a fresh object holding its current values: same result, bit for bit."""
+    base = tile([float(v) for v in rec], max(len(rec), 24))       # the filters / windowed corrections need some length
+    try:
+        probe = ctor(np.array(base, dtype=float))
+    except Exception:
+        return
+    cls = type(probe).__name__
+
+    def run(obj):
+        try:
+            return 'ok', fn(obj)
+        except Exception as e:  # noqa
+            return 'exc', type(e).__name__
+    for mname, op in edit_ops(cls):
+        try:
+            obj = ctor(np.array(base, dtype=float))
+            obj._mc_n0 = len(base)
+        except Exception:
+            return
+        first = run(obj)
+        if first[0] == 'ok':
+            _scribble_result(first[1])
+        before = np.array(obj.values, dtype=float)
+        try:
+            op(obj)
+        except Exception:
+            pass
+        try:
+            now = np.array(obj.values)
+            if now.shape == before.shape and np.array_equal(np.asarray(now, dtype=float), before):
+                r.disabled['after-every-edit: mutator raised before / without changing the record'] += 1
+                continue
+            fresh_obj = ctor(now.copy())
+        except Exception:
+            r.disabled['after-every-edit: no fresh twin'] += 1
+            continue
+        r.evals += 2
+        a1 = run(obj)
+        a0 = run(fresh_obj)
+        r.n_cmp += 1
+        r.cls('B:after-every-edit')
+        s2 = dict(sub, history='called, then ' + mname + ', then called again')
+        if a0[0] != a1[0] or (a0[0] == 'exc' and a0[1] != a1[1]):
+            r.fail('purity.history-dependent', s2, '%s: fresh object %s, edited object %s' % (name, a0[0] + (':' + a0[1] if a0[0] == 'exc' else ''),
+                                                                                         a1[0] + (':' + a1[1] if a1[0] == 'exc' else '')))
+        elif a0[0] == 'ok' and not bits_equal(a0[1], a1[1]):
+            r.fail('purity.history-dependent', s2, '%s gives a different result on an object that was queried, edited by %s and queried again '
+                   'than on a fresh object with the same values' % (name, mname), observed=a1[1], expected=a0[1])
+
+
 def _arrays_of(x, acc):
     if isinstance(x, (tuple, list)):
         for v in x:
@@ -821,6 +884,8 @@ def run_B(case, r):
                     # reset_values to this record) is the same input as a fresh object and must give the same result
                     if kind == 'f64' and not own_method and len(w) <= HIST_MAXLEN:
                         history_independent(r, name, fn, ctor, rec, {'fn': name, 'w': w, 'obj': ctor.__name__})
+                    if kind == 'f64' and not own_method and len(w) == 3 and w[0] != 0 and w[1] != w[0]:
+                        after_every_edit(r, name, fn, ctor, rec, {'fn': name, 'w': w, 'obj': ctor.__name__})
 
 
 def run_case(case):
